@@ -1226,7 +1226,21 @@ def check_case(res, data, stream, obs, mline, sline, bline, model_ok=True, wline
                         res.streams["max-agreeing-records"] = nr
                     if nqs > res.streams.get("max-agreeing-questions", 0):
                         res.streams["max-agreeing-questions"] = nqs
-            elif strict["supported"]:
+            elif strict["reencodable"]:
+                # outside the property's hypothesis only because a record of an unsupported type is present (second review, finding 4):
+                # judged on the supported part -- `C02_agrees_strict_supported_part`: such a record is skipped and disturbs nothing.
+                # The property does not demand this, so a difference is a broken correspondence (stage C), not a violation.
+                res.count("strict-accepted-mixed")
+                sup = tuple(r for r in strict["records"] if r[4][0] != "o")
+                ok = (obs["status"] == "ok" and obj["valid"] and obj["hdr"] == strict["hdr"] and obj["questions"] == strict["questions"]
+                      and obj["records"] == sup)
+                if not ok:
+                    res.disagree("strict-supported-part", case, _short({"valid": obj["valid"] if obj else None, "records": obj["records"] if obj else None}),
+                                 "the strict parser's records of supported types: " + _short(sup))
+                else:
+                    res.count("strict-accepted-mixed-agree")
+                    res.nontriv(("agree-mixed", min(len(sup), 64) // 8, min(len(strict["records"]) - len(sup), 64) // 8, tuple(sorted({r[4][0] for r in sup}))))
+            else:
                 res.count("strict-accepted-unencodable-label")
     third_parser(res, data, case, obs, strict, sline is not None)
     # ---------------- C: model vs implementation
@@ -1297,6 +1311,14 @@ def third_parser(res, data, case, obs, strict, have_lean):
         if not ok and not (strict is not None and strict["supported"] and strict["reencodable"]):  # else already reported above
             res.violate("C02:strict-disagrees", "an independent strict RFC 1035 parser (253-character names) accepts this datagram but the library's result "
                         "differs (valid=%s)" % (obj["valid"] if obj else None), case)
+    elif p253 is not None and _reenc_ok(p253["names"]):
+        # the supported part of a message that also carries unsupported records, judged without Lean
+        res.count("rfc1035.py-accepted-mixed")
+        sup = tuple(r for r in p253["records"] if r[4][0] != "o")
+        ok = (obs["status"] == "ok" and obj["valid"] and obj["hdr"] == p253["hdr"] and obj["questions"] == p253["questions"] and obj["records"] == sup)
+        if not ok and not (strict is not None and strict["reencodable"]):  # else already reported by check_case
+            res.disagree("strict-supported-part", case, _short({"valid": obj["valid"] if obj else None, "records": obj["records"] if obj else None}),
+                         "rfc1035.py's records of supported types: " + _short(sup))
     # ---- observations against the RFC's own name-length rule (a reading, never a violation)
     if prfc is not None and p253 is None and prfc["supported"] and _reenc_ok(prfc["names"]):
         res.count("rfc1035:legal-name-of-254-characters-rejected-by-the-253-rule")
@@ -1737,6 +1759,13 @@ def run(ctx):
                      "(= %d hops; the strict parser allows 128); longest agreeing name in a message with compressed names: %d labels"
                      % (res.streams.get("max-agreeing-records", 0), res.streams.get("max-agreeing-questions", 0), res.streams.get("max-agreeing-nesting", 0),
                         max(0, res.streams.get("max-agreeing-nesting", 0) - 1), res.streams.get("max-agreeing-labels", 0)))
+    acc = res.dist.get("strict-accepted", 0)
+    if acc:
+        inscope, mixed, unenc = res.dist.get("strict-accepted-in-scope", 0), res.dist.get("strict-accepted-mixed", 0), res.dist.get("strict-accepted-unencodable-label", 0)
+        res.notes.append("faithfulness: of %d strict-accepted datagrams %d (%.0f %%) are in the property's scope and judged in full, %d (%.0f %%) carry a record of an "
+                         "unsupported type and are judged on their supported part (C02_agrees_strict_supported_part; %d agree), "
+                         "%d (%.0f %%) carry a label that cannot be written back and are outside the `reencodable` proviso (not judged)"
+                         % (acc, inscope, 100.0 * inscope / acc, mixed, 100.0 * mixed / acc, res.dist.get("strict-accepted-mixed-agree", 0), unenc, 100.0 * unenc / acc))
     res.notes.append("work besides the name decoder (measured on the implementation with a line tracer, compared with the model's counters on every datagram): "
                      "at most %d source lines of the package per datagram (a %d-byte one); largest loop counters: %s; %d decodes of >= %d lines also held to the "
                      "CPU-time yardstick (%d yardstick lines per executed line + %.2f s)"
